@@ -1491,6 +1491,29 @@ fn exists_decl(pr: &Pair) -> bool {
     pr.decl.is_some()
 }
 
+/// The hypothesis `TypeInfo.WF` of the gate theorems, asked of the real
+/// registration: a host type under a reserved name in the global scope is
+/// refused. Returns the names for which registration succeeded.
+fn wf_probe() -> Vec<&'static str> {
+    let mut accepted = vec![];
+    macro_rules! attempt {
+        ($($name:ident),*) => { $(
+            let r = std::panic::catch_unwind(|| {
+                Runtime::<NoCtx>::from_lib(library! {
+                    /// a host type under a reserved name
+                    #[clone] type $name = Val<Foo>;
+                })
+                .is_ok()
+            });
+            if r.unwrap_or(false) {
+                accepted.push(stringify!($name));
+            }
+        )* };
+    }
+    attempt!(bool, char, u8, u16, u32, u64, i8, i16, i32, i64, f32, f64, Asn, IpAddr, Prefix, String, Option, Result, Verdict, List);
+    accepted
+}
+
 fn runtimes() -> Vec<Runtime<NoCtx>> {
     (0..ENVS.len()).map(runtime).collect()
 }
@@ -1535,6 +1558,15 @@ fn main() {
             let mut drv = Driver::spawn().expect("lean driver");
             if from == 0 {
                 rep.notes.push(format!("lean tables: {}", drv.ask("c04 tables")));
+                let accepted = wf_probe();
+                rep.evaluations += 20;
+                rep.hist("wf-probe", if accepted.is_empty() { "all 20 reserved global names refused" } else { "some accepted" });
+                if !accepted.is_empty() {
+                    rep.mismatch(
+                        "hypothesis TypeInfo.WF of the gate theorems does not hold: the runtime registered a host type under a reserved global name",
+                        json!({"accepted": accepted, "library": "#[clone] type <name> = Val<Foo>;"}),
+                    );
+                }
             }
             for i in from..from + n {
                 println!("START {i}");
